@@ -1791,7 +1791,11 @@ def run(pids, quick=False, seed=0, verbose=True, snippets=False):
         rest = [p for p in pids if not any(p in v for v in ext.values())]
         n_all, rep_all = (run(rest, quick, seed, verbose, snippets) if (rest or snippets) else (0, {'_mismatches': []}))
         for mod, ps in ext.items():
-            n1, rep1 = importlib.import_module(mod).selftest(ps, quick=quick, seed=seed, verbose=verbose)
+            _m = importlib.import_module(mod)
+            if hasattr(_m, 'selftest'):
+                n1, rep1 = _m.selftest(ps, quick=quick, seed=seed, verbose=verbose)
+            else:                                # a translator module with its self-test in <module>_selftest.run
+                n1, rep1 = importlib.import_module(mod + '_selftest').run(ps, quick=quick, seed=seed, verbose=verbose)
             n_all += n1
             mm = rep_all.get('_mismatches', []) + rep1.pop('_mismatches', [])
             rep_all.update(rep1)
